@@ -94,9 +94,12 @@ func AppendSnapshot(b []byte, s *slip.Scope) []byte {
 
 	b = appendSnapshotRequires(b, s)
 	b = appendSnapshotPackages(b, s)
-	b = appendSnapshotConstants(b, s)
 	b = appendSnapshotFlavors(b, s)
 	b = appendSnapshotClasses(b, s)
+	// The value of a constant can be an instance of a flavor or class so the
+	// constants follow the flavors and classes. A defflavor or defclass
+	// does not evaluate the default forms until an instance is made.
+	b = appendSnapshotConstants(b, s)
 	b = appendSnapshotVars(b, s)
 	b = appendSnapshotFunctions(b, s)
 
